@@ -29,6 +29,25 @@ func CanonEqual(a, b reflect.Value, path string) (bool, string) {
 			}
 		}
 		return true, ""
+	case reflect.Map:
+		if a.Len() != b.Len() {
+			return false, fmt.Sprintf("%s: map len %d vs %d", path, a.Len(), b.Len())
+		}
+		for _, k := range a.MapKeys() {
+			bv := b.MapIndex(k)
+			if !bv.IsValid() {
+				return false, fmt.Sprintf("%s: key %v missing", path, k)
+			}
+			// map values are not addressable: copy them
+			av := reflect.New(a.Type().Elem()).Elem()
+			av.Set(a.MapIndex(k))
+			bc := reflect.New(b.Type().Elem()).Elem()
+			bc.Set(bv)
+			if ok, d := CanonEqual(av, bc, fmt.Sprintf("%s[%v]", path, k)); !ok {
+				return false, d
+			}
+		}
+		return true, ""
 	case reflect.Slice:
 		if a.Len() != b.Len() {
 			return false, fmt.Sprintf("%s: len %d vs %d", path, a.Len(), b.Len())
